@@ -259,6 +259,10 @@ def run(repo, rep, tier):
         rep.check('writers', 'documented writer %s still writes (inventory is current)' % fid, fid in writers, repo.func(*fid.split(':')), 'documented writer %s no longer writes the table: update the inventory' % fid)
     rep.floor('writers', 'functions scanned for table writes', nfuncs, 200)
 
+    # ---- rule 5b: the table ratings are read from is private to the scan -------------------------------------------------------------
+    from props import _dbcopy
+    _dbcopy.check_private_copy(repo, rep, 'writers', ce, 'an algorithm\'s notes depend on which peers were audited earlier in the same run (-T), not only on the algorithm and what was measured on this peer')
+
     # ---- rule 6: level ordering ---------------------------------------------------------------------------------------------------
     en = [n for n in walk_no_nested(oa) if isinstance(n, ast.For) and isinstance(n.iter, ast.Call) and call_name(n.iter) == 'enumerate']
     ok = len(en) == 1 and unparse(en[0].iter.args[0]) == "['fail', 'warn', 'info']" and unparse(en[0].target) == '(idx, level)'
